@@ -384,6 +384,38 @@ theorem C13_fail_line_old_counterexample :
     (exec (blockCodeOld 1 ⟨0, [], Outcome.assertFail⟩) 13 0 init).out = [] ∧
     (exec (blockCode 1 (some ⟨0, [], Outcome.assertFail⟩)) 14 0 init).out = [(1, Verdict.FAIL)] := by decide
 
+/-! ### `return` out of an `@capture` block (fixes/C13-4.patch, callframe.go)
+
+With the fix callFramePop cuts c.outputStack back to the depth recorded in the frame (as it does for the
+try stack), so whatever BeginCapture a body or a function it calls leaves open is closed when the frame
+is popped: at the big-step level of `callTest` a body cannot change `outStack` / `capturing`, which is
+what the model says. Before the fix the frame pop gave back the value and try stacks only. -/
+
+/-- `n` BeginCapture instructions whose EndCapture is never reached (`return` inside `@capture … { }`) -/
+def beginN : Nat → St → St
+  | 0, st => st
+  | n + 1, st => beginN n (step Instr.beginCapture 0 st).1
+
+/-- one block before the fix, for a body that leaves `caps` @capture blocks open: the skeleton up to
+    CallTest, the body (the open captures survive the frame pop / the unwind), the rest of the skeleton -/
+def runBlockCapsOld (name : Nat) (caps : Nat) (b : Body) : St :=
+  let code := blockCode name (some b)
+  let r := callTest b 5 (beginN caps (exec (code.take 5) 6 0 init))
+  exec code 14 r.2 r.1
+
+/-- before the fix: the skeleton's EndCapture closes the body's abandoned @capture instead of its own
+    BeginCapture, so the test's own (PASS) / (FAIL) line is printed into the skeleton's capture buffer and
+    never reaches the console; with no open capture (and with the fix, for any body) the line is printed.
+    The next block starts with `Console false`, which is why later tests are still reported. -/
+theorem C13_capture_return_old_counterexample :
+    (runBlockCapsOld 1 1 ⟨1, [7], Outcome.pass⟩).out = [] ∧
+    (runBlockCapsOld 1 1 ⟨0, [], Outcome.assertFail⟩).out = [] ∧
+    (runBlockCapsOld 1 2 ⟨0, [], Outcome.runtimeErr⟩).out = [] ∧
+    (runBlockCapsOld 1 1 ⟨1, [7], Outcome.pass⟩).outStack = [false] ∧
+    (runBlockCapsOld 1 0 ⟨1, [7], Outcome.pass⟩).out = [(1, Verdict.PASS)] ∧
+    (runBlockCapsOld 1 0 ⟨1, [7], Outcome.pass⟩) = exec (blockCode 1 (some ⟨1, [7], Outcome.pass⟩)) 14 0 init ∧
+    (exec (blockCode 1 (some ⟨0, [], Outcome.assertFail⟩)) 14 0 init).out = [(1, Verdict.FAIL)] := by decide
+
 
 /-! ### `@compile eof=` spans at the split (fixes/C13-3.patch) -/
 
